@@ -213,7 +213,9 @@ fn gen_sets(prop: &str, tier: &str) -> Vec<ProgSet> {
             }
             for w in &writers {
                 for r in &rs {
-                    sets.push(ProgSet { programs: vec![w.clone(), r.clone()], writer: Some(0), main_reads: false, readers_see_only_v0: true, bound: None, expect_facts: vec!["make_mut=in_place".into(), "make_mut=copied".into()] });
+                    // a writer that first clones its own handle can never be the sole owner
+                    let facts: Vec<String> = if w.ops[0] == Clone { vec!["make_mut=copied".into()] } else { vec!["make_mut=in_place".into(), "make_mut=copied".into()] };
+                    sets.push(ProgSet { programs: vec![w.clone(), r.clone()], writer: Some(0), main_reads: false, readers_see_only_v0: true, bound: None, expect_facts: facts });
                     // with the main thread also holding and reading
                     sets.push(ProgSet { programs: vec![w.clone(), r.clone()], writer: Some(0), main_reads: true, readers_see_only_v0: true, bound: None, expect_facts: vec![] });
                 }
